@@ -1626,3 +1626,129 @@ func (c *Ctx) tbeCount(rule string) int {
 	}
 	return n
 }
+
+// ---------------------------------------------------------------------------------------------
+// COLLECT-ALL: a loop that ranges over a parameter holding the requested items (names, tips ...)
+// and collects something per item (store into a map, append) must look at every item: an unlabeled
+// `break` out of it that is not an error exit (no error variable assigned in the breaking block)
+// silently drops the items after the current one.
+func (c *Ctx) collectAll(rule string, funcs []*FuncInfo, clause string) (n, nviol int) {
+	for _, fi := range funcs {
+		if fi.Decl.Body == nil {
+			continue
+		}
+		info := fi.Pkg.TypesInfo
+		params := map[types.Object]bool{}
+		sig := fi.Obj.Type().(*types.Signature)
+		for i := 0; i < sig.Params().Len(); i++ {
+			params[sig.Params().At(i)] = true
+		}
+		k := 0
+		ast.Inspect(fi.Decl.Body, func(m ast.Node) bool {
+			rs, ok := m.(*ast.RangeStmt)
+			if !ok {
+				return true
+			}
+			if !params[identObj(info, rs.X)] {
+				return true
+			}
+			if _, isSlice := info.TypeOf(rs.X).Underlying().(*types.Slice); !isSlice {
+				return true
+			}
+			var items []types.Object
+			for _, e := range []ast.Expr{rs.Key, rs.Value} {
+				if e != nil {
+					if o := identObj(info, e); o != nil {
+						items = append(items, o)
+					}
+				}
+			}
+			mentionsItem := func(n ast.Node) bool {
+				found := false
+				ast.Inspect(n, func(q ast.Node) bool {
+					if id, ok := q.(*ast.Ident); ok {
+						for _, o := range items {
+							if identObj(info, id) == o {
+								found = true
+							}
+						}
+					}
+					return !found
+				})
+				return found
+			}
+			// does the body collect per item?
+			collects := false
+			ast.Inspect(rs.Body, func(q ast.Node) bool {
+				as, ok := q.(*ast.AssignStmt)
+				if !ok {
+					return true
+				}
+				for i, l := range as.Lhs {
+					if ie, ok := unparen(l).(*ast.IndexExpr); ok {
+						if _, isMap := info.TypeOf(ie.X).Underlying().(*types.Map); isMap && (mentionsItem(ie.Index) || (i < len(as.Rhs) && mentionsItem(as.Rhs[i]))) {
+							collects = true
+						}
+					}
+					if i < len(as.Rhs) {
+						if call, ok := unparen(as.Rhs[i]).(*ast.CallExpr); ok {
+							if id, ok := unparen(call.Fun).(*ast.Ident); ok {
+								if b, ok := info.Uses[id].(*types.Builtin); ok && b.Name() == "append" {
+									collects = true
+								}
+							}
+						}
+					}
+				}
+				return true
+			})
+			if !collects {
+				return true
+			}
+			k++
+			n++
+			key := fmt.Sprintf("%s/range %s#%d", funcName(fi.Obj), c.canon(info, rs.X, nil), k)
+			bad := token.NoPos
+			walkStack(rs.Body, func(q ast.Node, st []ast.Node) bool {
+				switch x := q.(type) {
+				case *ast.ForStmt, *ast.RangeStmt, *ast.SwitchStmt, *ast.TypeSwitchStmt, *ast.SelectStmt, *ast.FuncLit:
+					return false // a break inside belongs to the inner construct
+				case *ast.BranchStmt:
+					if x.Tok != token.BREAK || x.Label != nil {
+						return true
+					}
+					// error exit? an error-typed variable is assigned in the same block before the break
+					isErrExit := false
+					if len(st) > 0 {
+						if blk, ok := st[len(st)-1].(*ast.BlockStmt); ok {
+							for _, s := range blk.List {
+								if s.Pos() >= x.Pos() {
+									break
+								}
+								if as, ok := s.(*ast.AssignStmt); ok {
+									for _, l := range as.Lhs {
+										if t := info.TypeOf(l); t != nil && isErrorType(t) {
+											isErrExit = true
+										}
+									}
+								}
+							}
+						}
+					}
+					if !isErrExit && !bad.IsValid() {
+						bad = x.Pos()
+					}
+				}
+				return true
+			})
+			if bad.IsValid() {
+				nviol++
+				c.Violation(rule, key, bad, "the loop collects a result for each requested item of "+c.canon(info, rs.X, nil)+" and leaves with `break` without recording an error: the items after the current one are silently ignored").Clause = clause
+			} else {
+				c.OK(rule, key, rs.Pos(), "every requested item is looked at (no silent break)")
+			}
+			return true
+		})
+	}
+	return
+}
